@@ -79,3 +79,28 @@ Theorem exists_unlocked_refuted :
     reach pq loc op res q_init q_fin q_mstep prefix_mode (init_cfg pq loc op res m_new push_and_exists) c /\
     at_loc c 0 writes_map = true /\ at_loc c 1 reads_map = true.
 Proof. exists race_cfg. exact exists_races_with_push. Qed.
+
+(* ---- histories with pending calls: every reachable configuration ---- *)
+Theorem pq_linearizable_pending (mode : op -> lockmode) :
+  (forall o, mode o = LockExclusive) ->
+  forall (P : nat -> list op) (c : cfg pq loc op res),
+    reach pq loc op res q_init q_fin q_mstep mode (init_cfg pq loc op res m_new P) c ->
+    exists (ts : list nat) (compl : list (@orec op res)) l q,
+      NoDup ts /\
+      Forall2 (fun t e => th pq loc op res c t = Finished loc op res (o_call e) (o_op e) (o_res e) /\
+                          o_ret e = clk pq loc op res c) ts compl /\
+      linearization q_spec_sim [] (done pq loc op res c ++ compl) l q.
+Proof.
+  intros Hx P c Hr.
+  destruct (exclusive_linearizable_pending pq loc op res q_init q_fin q_mstep mode Hx _ _ _ Hr)
+    as [ts [compl [l [sb [Hn [Hf [Hp [Hl Ho]]]]]]]].
+  assert (Hl' : linearization m_fspec m_new (done pq loc op res c ++ compl) l sb).
+  { repeat split; try assumption. eapply legal_mono; [|exact Hl].
+    intros s o r s' H. apply seq_spec_m_step. exact H. }
+  destruct (linearizable_sim m_fspec q_spec_sim R R_step_sim _ _ _ _ _ R_init Hl') as [q [Hq _]].
+  exists ts, compl, l, q. split; [exact Hn|split; [exact Hf|exact Hq]].
+Qed.
+
+Theorem pq_pcert_sound h pend inf chosen p :
+  pq_pcert h pend inf chosen p = true -> linearizable_pending qspec op res q_step [] h pend.
+Proof. apply pcert_ok_sound. exact res_eqb_spec. Qed.
